@@ -777,4 +777,41 @@ def labels_private(repo: Repo) -> RuleRun:
 labels_private.rule_id = "C06.LABELS-PRIVATE"
 
 
-RULES = [sections, side_tables, vertex_ownership, assemble_walk, patch_state, delete_skip, geometry_label, precision, user_state_survives, grading_form, geometry_redeclared, vertex_tolerance, grade_idempotent, live_lengths, axis_table, corner_patches, empty_patch, side_addressing, no_class_state, geometry_role_free, labels_private]
+def projected_once(repo: Repo) -> RuleRun:
+    """'... the faces section contains exactly the ... projected sides ... the user declared': a side shared by two blocks and
+    projected from both is written once - wherever in the list its first entry sits. Abstract run of FaceList.add_side on
+    sequences of sides with repetitions at the first, a middle and the last position."""
+    r = RuleRun(PROP, "C06.PROJECTED-ONCE", floor=4, what="FaceList.add_side keeps one entry per side, whatever the position of the earlier entry in the list; distinct sides are all kept, in order")
+    fn = repo.func("lists.face_list.FaceList.add_side")
+    cls = repo.cls("lists.face_list.FaceList")
+    for label, seq in (
+        ("repeat of the first entry", ["A", "B", "C", "A"]),
+        ("repeat of a middle entry", ["A", "B", "C", "B"]),
+        ("repeat of the last entry", ["A", "B", "C", "C"]),
+        ("every side from both blocks", ["A", "A", "B", "B", "C", "C"]),
+        ("no repetition", ["A", "B", "C", "D"]),
+    ):
+        fl = Obj("facelist", cls=cls)
+        fl.set("faces", [])
+
+        def hook(ev, call: ast.Call, name):
+            if (name or "").split(".")[-1] == "ProjectedFace":
+                args = [ev.eval(a) for a in call.args]
+                return Obj(f"entry:{args[0]}", side=args[0], label=args[1])
+            return NO_MATCH
+
+        try:
+            for sd in seq:
+                Evaluator(repo=repo, module=fn.module, call_hook=hook).call_funcinfo(fn, [fl, sd, f"geo-{sd}"])
+        except (Raised, NotEvaluable) as err:
+            raise AnalysisError(f"FaceList.add_side not evaluable on symbolic sides: {err}") from err
+        got = [e.get("side") for e in fl.get("faces")]
+        want = list(dict.fromkeys(seq))
+        r.check(got == want, fn, f"{label}: {got}", f"FaceList.add_side, sides added in the order {seq} ({label}): the list holds {got}, expected {want} - a side shared by two blocks and projected from both is written twice into the faces section (or a declared one is lost)", fn.node, key=f"seq:{label}")
+    return r
+
+
+projected_once.rule_id = "C06.PROJECTED-ONCE"
+
+
+RULES = [sections, side_tables, vertex_ownership, assemble_walk, patch_state, delete_skip, geometry_label, precision, user_state_survives, grading_form, geometry_redeclared, vertex_tolerance, grade_idempotent, live_lengths, axis_table, corner_patches, empty_patch, side_addressing, no_class_state, geometry_role_free, labels_private, projected_once]
